@@ -1,2 +1,2 @@
 SPECIFICATION Spec
-INVARIANTS UsesSeeTheirValue SlotsInv
+INVARIANTS UsesSeeTheirValue SlotsInv ConsecutiveInv
